@@ -26,7 +26,7 @@ pub fn prop() -> Prop {
     .random(
         "histories",
         check,
-        |t| if t == Tier::Quick { 250_000 } else { 2_500_000 },
+        |t| if t == Tier::Quick { 600_000 } else { 2_500_000 },
         |t| if t == Tier::Quick { 700 } else { 1000 },
     )
     .text(check_text)
